@@ -191,6 +191,15 @@ Qed.
 Lemma existsb_ext' {X} (f g : X -> bool) (l : list X) : (forall x, f x = g x) -> existsb f l = existsb g l.
 Proof. intros H. induction l as [|x r IH]; simpl; [reflexivity|]. now rewrite H, IH. Qed.
 
+(* x[0] in terminal_set, for a one-letter x[0]: the model's membership test *)
+Lemma s_in_single (c : N) (set : list str) :
+  s_in [c] set = existsb (fun s => match s with [x] => N.eqb x c | _ => false end) set.
+Proof.
+  unfold s_in. apply existsb_ext'. intros [|x [|y s']]; try reflexivity.
+  - rewrite s_eqb_single. apply N.eqb_sym.
+  - unfold s_eqb. simpl. now rewrite andb_false_r.
+Qed.
+
 (* the inner loop of edit_terminal_set: a label whose letter is not in the set *)
 Lemma skip_fold (ud : str) (set : list str) (ts : list str) :
   Forall (fun t => t <> []) ts -> forall acc,
@@ -198,15 +207,18 @@ Lemma skip_fold (ud : str) (set : list str) (ts : list str) :
   = acc || negb (set_keeps set ts).
 Proof.
   induction 1 as [|t r Ht Hr IH]; intros acc; simpl; [now rewrite orb_false_r|].
-  rewrite IH. destruct t as [|c d]; [contradiction|]. simpl char0.
-  assert (E : s_in [c] set = existsb (fun s => match s with [x] => N.eqb x c | _ => false end) set).
-  { unfold s_in. apply existsb_ext'. intros [|x [|y s']]; try reflexivity.
-    - rewrite s_eqb_single. apply N.eqb_sym.
-    - unfold s_eqb. simpl. now rewrite andb_false_r. }
-  rewrite E.
+  rewrite IH. destruct t as [|c d]; [contradiction|]. simpl char0. rewrite s_in_single.
   destruct (existsb (fun s => match s with [x] => N.eqb x c | _ => false end) set); simpl.
   - reflexivity.
   - now rewrite orb_true_r.
+Qed.
+
+(* the same test written all(x[0] in terminal_set for x in line) *)
+Lemma forallb_set_keeps (ud : str) (set : list str) (ts : list str) :
+  Forall (fun t => t <> []) ts -> forallb (fun x => s_in (char0 ud x) set) ts = set_keeps set ts.
+Proof.
+  induction 1 as [|t r Ht Hr IH]; [reflexivity|]. cbn [forallb set_keeps]. fold (set_keeps set r). rewrite IH.
+  destruct t as [|c d]; [contradiction|]. cbn [char0]. now rewrite s_in_single.
 Qed.
 
 Lemma tokens_nonempty s : Forall (fun t => t <> []) (tokens s).
@@ -220,13 +232,21 @@ Context (re_search : str -> str -> bool) (isspace : N -> bool).
 Context (ud : str).
 
 Notation py_check_regex := (py_check_regex re_search isspace ud).
-Notation py_edit_terminal_set := (py_edit_terminal_set isspace ud).
-Notation py_edit_length := (py_edit_length isspace ud).
+Notation py_edit_terminal_set := (py_edit_terminal_set re_search isspace ud).
+Notation py_edit_length := (py_edit_length re_search isspace ud).
 Notation py_edit_passes := (py_edit_passes re_search isspace ud).
 Notation line_ok := (line_ok isspace).
 
 Lemma Forall_no_lf ls : Forall line_ok ls -> Forall (fun l => ~ In LF (whole l)) ls.
 Proof. intros H. eapply Forall_impl; [|exact H]. intros l. apply line_ok_no_lf. Qed.
+
+(* The per-line steps below do not follow one fixed generated text: a loop with a flag and the all(...)
+   spelling of the same test are both rewritten to the model's test, the letter tests are decided by case
+   analysis on the letter, the keep-conditions by case analysis on the four comparisons, and the text
+   that is appended is compared modulo associativity of ++ (concatenation with + and f-strings). *)
+Ltac line_text_tac :=
+  unfold render_line, whole; cbn [gstruct gprob]; change [9%N] with [TAB]; change [10%N] with [LF];
+  rewrite <- ?app_assoc; reflexivity.
 
 (* ---- check_regex ---- *)
 Theorem small_check_regex_eq (rs : list str) (ls : list gline) :
@@ -240,10 +260,10 @@ Proof.
   - rewrite map_res_total, flat_map_filter. reflexivity.
   - intros l acc Hin. rewrite Forall_forall in Hok.
     destruct (line_ok_fields isspace ud l (Hok l Hin)) as (Hne & Hs & Hp).
-    rewrite Hne, Hs. simpl negb. cbv iota.
-    unfold for_each. rewrite (regex_loop re_search (gstruct l) rs) by reflexivity.
-    unfold regex_keeps. destruct (forallb (fun r => re_search r (gstruct l)) rs); simpl.
-    + unfold render_line. now rewrite <- app_assoc.
+    rewrite Hne, Hs. cbn [negb]. cbv iota.
+    try (unfold for_each; rewrite (regex_loop re_search (gstruct l) rs) by reflexivity).
+    unfold regex_keeps. destruct (forallb (fun r => re_search r (gstruct l)) rs); cbn [negb]; cbv beta iota.
+    + line_text_tac.
     + reflexivity.
   - intros acc. reflexivity.
 Qed.
@@ -260,17 +280,17 @@ Proof.
   - rewrite map_res_total. reflexivity.
   - intros l acc Hin. rewrite Forall_forall in Hok.
     destruct (line_ok_fields isspace ud l (Hok l Hin)) as (Hne & Hs & Hp).
-    rewrite Hne, Hp. simpl negb. cbv iota. unfold edit_set_line.
+    rewrite Hne, Hp. cbn [negb]. cbv iota. unfold edit_set_line.
     pose proof (tokens_nonempty (whole l)) as Hts.
     destruct (tokens (whole l)) as [|t ts] eqn:Et; [reflexivity|].
-    simpl nonempty. simpl negb. cbv iota.
-    rewrite (for_each_fold (t :: ts) _
-               (fun skip x => if negb (s_in (char0 ud x) set) then true else skip))
-      by (intros x s _; destruct (negb (s_in (char0 ud x) set)); reflexivity).
-    rewrite (skip_fold ud set (t :: ts) Hts). rewrite orb_false_l, negb_involutive.
-    destruct (set_keeps set (t :: ts)); [|reflexivity].
-    unfold render_line, whole. cbn [gstruct gprob]. change [9%N] with [TAB]. change [10%N] with [LF].
-    rewrite <- !app_assoc. reflexivity.
+    cbn [nonempty negb]. cbv iota.
+    first
+      [ rewrite (for_each_fold (t :: ts) _
+                   (fun skip x => if negb (s_in (char0 ud x) set) then true else skip))
+          by (intros x s _; destruct (negb (s_in (char0 ud x) set)); reflexivity);
+        rewrite (skip_fold ud set (t :: ts) Hts), orb_false_l, negb_involutive
+      | rewrite (forallb_set_keeps ud set (t :: ts) Hts) ].
+    destruct (set_keeps set (t :: ts)); [|reflexivity]. cbv beta iota. line_text_tac.
   - intros acc. reflexivity.
 Qed.
 
@@ -287,28 +307,26 @@ Proof.
   - destruct (map_res (edit_length_line mn mx) ls); reflexivity.
   - intros l acc Hin. rewrite Forall_forall in Hok.
     destruct (line_ok_fields isspace ud l (Hok l Hin)) as (Hne & Hs & Hp).
-    rewrite Hne, Hp. simpl negb. cbv iota. unfold edit_length_line.
+    rewrite Hne, Hp. cbn [negb]. cbv iota. unfold edit_length_line.
     pose proof (tokens_nonempty (whole l)) as Hts.
     destruct (tokens (whole l)) as [|t ts] eqn:Et; [reflexivity|].
-    simpl nonempty. simpl negb. cbv iota.
+    cbn [nonempty negb]. cbv iota.
     unfold for_each.
     rewrite (total_loop (Ret Raise) (t :: ts)).
     + destruct (total_len (t :: ts)) as [n|]; [|reflexivity].
       rewrite Nat.add_0_l. unfold length_keeps.
-      destruct (Nat.eqb n 0 && Nat.leb n mx); [|destruct (Nat.leb mn n && Nat.eqb mx 0);
-        [|destruct (Nat.leb mn n && Nat.leb n mx); [|reflexivity]]]; cbn [orb];
-        unfold render_line, whole; cbn [gstruct gprob]; change [9%N] with [TAB]; change [10%N] with [LF];
-        rewrite <- !app_assoc; reflexivity.
+      (* the keep-condition, however it is spelled: decide the four comparisons *)
+      destruct (Nat.eqb n 0), (Nat.leb n mx), (Nat.leb mn n), (Nat.eqb mx 0); cbn [andb orb]; cbv iota;
+        first [reflexivity | line_text_tac].
     + intros x a Hx. rewrite Forall_forall in Hts. specialize (Hts x Hx).
       destruct x as [|c d]; [contradiction|].
-      cbn [char0 skipn]. rewrite !s_eqb_single. unfold label_len.
-      destruct (N.eqb c 65); [destruct (int_of d); reflexivity|].
-      destruct (N.eqb c 68); [destruct (int_of d); reflexivity|].
-      destruct (N.eqb c 89) eqn:E89; [apply N.eqb_eq in E89; subst c; reflexivity|].
-      destruct (N.eqb c 79); [destruct (int_of d); reflexivity|].
-      destruct (N.eqb c 75); [destruct (int_of d); reflexivity|].
-      destruct (N.eqb c 88); [destruct (int_of d); reflexivity|].
-      cbn [orb]. now rewrite Nat.add_0_r.
+      cbn [char0 skipn s_in existsb]. rewrite ?s_eqb_single. unfold label_len.
+      (* the letter tests, in whatever order and grouping: decide the letter *)
+      repeat match goal with
+             | |- context [N.eqb c ?k] => destruct (N.eqb_spec c k); [subst c|]
+             end;
+        cbv [N.eqb Pos.eqb orb andb]; rewrite ?Nat.add_0_r;
+        first [reflexivity | destruct (int_of d); reflexivity].
   - intros acc. reflexivity.
 Qed.
 
